@@ -81,6 +81,14 @@ def run_ops(case):
                     return {"err": f"add(list of {len(evs)}) returned {len(flags)} results"}
                 for f in flags:
                     out.append([[f], []])
+            elif op[0] == "remove_fetched":
+                # a write fed by a LAZY read of the same timeline: m.remove(m.fetch(a, b)).  What is
+                # to be removed is what the timeline held in [a, b] when the call was made (taken here
+                # from a separate, fully consumed fetch); every one of those must be reported removed
+                _, a, b = op
+                snap = [code(r) for r in m.fetch(a, b)]
+                res = m.remove(m.fetch(a, b))
+                out.append(["fetched", snap, [r.success for r in res]])
             elif op[0] == "removemany":
                 # remove(iterable): one call, one WriteResult per item; modelled as the sequence of
                 # single removals (the observation is split accordingly)
@@ -228,6 +236,9 @@ class MemFamily(Family):
                     else:
                         merged2.append(o)
                 ops = merged2
+            if rng.random() < 0.12:
+                a = BASE + rng.choice([-DAY, 0, 2 * 3600, DAY])
+                ops.insert(rng.randrange(len(ops) + 1), ["remove_fetched", a, a + rng.choice([6 * 3600, DAY, 2 * DAY])])
             ops.append(["slice", BASE - DAY, BASE + 5 * DAY, False])
             yield dict(ops=ops)
 
@@ -235,9 +246,28 @@ class MemFamily(Family):
         return run_ops(case)
 
     def coq_case(self, case, obs):
-        ops = clist([coq_op(o) for o in case["ops"] if not (o[0] in ("removemany", "addmany") and not o[1])])
-        ob = clist([f"({clist([cbool(f) for f in fl])}, {clist([civl(r) for r in res])})" for fl, res in obs])
-        return f"(mkMC {ops} {ob})"
+        ops, ob = [], []
+        it = iter(obs)
+        for o in case["ops"]:
+            if o[0] == "remove_fetched":
+                _, snap, flags = next(it)
+                # the model removes the listed intervals one by one; a different number of results is
+                # shown to it as one extra / missing removal
+                for k, item in enumerate(snap):
+                    ops.append(f"(MRemove {civl(item)})")
+                    ob.append(f"({clist([cbool(flags[k])] if k < len(flags) else [])}, [])")
+                for f in flags[len(snap):]:
+                    ops.append("(MSlice 0 1 false)")
+                    ob.append(f"({clist([cbool(f)])}, [])")
+                continue
+            n_ = len(o[1]) if o[0] in ("removemany", "addmany") else 1
+            if n_ == 0:
+                continue
+            ops.append(coq_op(o))
+            for _ in range(n_):
+                fl, res = next(it)
+                ob.append(f"({clist([cbool(f) for f in fl])}, {clist([civl(r) for r in res])})")
+        return f"(mkMC {clist(ops)} {clist(ob)})"
 
     def shrink_candidates(self, case):
         ops = case["ops"]
@@ -254,7 +284,8 @@ class MemFamily(Family):
         return f"ops={case['ops']}"
 
     def nontrivial(self, case, obs):
-        return any(res for _, res in obs) and any(o[0] in ("remove", "rseries", "removemany") for o in case["ops"])
+        return (any(e[1] for e in obs if e[0] != "fetched")
+                and any(o[0] in ("remove", "rseries", "removemany", "remove_fetched") for o in case["ops"]))
 
     def distribution(self, case, dist):
         for o in case["ops"]:
